@@ -18,9 +18,10 @@ NEWPOOL_Q = [S([]), S([120]), S([120, 121]), F([]), F([[[], [0] * 8]]), F([[[120
 
 class C09(PureCheck):
     pid = "C09"
+    warm_every = 3
     rule = ("f in Layouts(R,2) (all run lists of <=R runs of length 0..2 over {a,b} x 3 attribute records, empty runs "
             "included), new in a pool of str/FmtStr values (empty, multi-run, leading empty run), every 0<=start<=end<=len+2 "
-            "and end omitted - every alignment with every run boundary; plus append(x). quick: R=2 complete + sampled R=3; "
+            "and end omitted - every alignment with every run boundary; plus append(x); plus, for every range, new values whose text equals the replaced text with other / no formatting. quick: R=2 complete + sampled R=3; "
             "thorough: R=3 complete. distinct_nontrivial = distinct (run-length profile of f, kind/length of new, start, end)")
     exhaustive = {"quick": False, "thorough": False}
 
@@ -49,6 +50,16 @@ class C09(PureCheck):
                     for e in range(s, n + 3):
                         yield {"op": "splice", "f": f, "new": new, "s": s, "e": e, "en": 0}
                 yield {"op": "append", "f": f, "new": new}
+        # repainting: the new text equals the text it replaces, only the formatting differs (or is dropped)
+        under = [0, 0, 0, 0, 0, 2, 0, 0]
+        for f in pool:
+            n = vlen(f)
+            text = [cp for t, _ in f for cp in t]
+            for s in range(0, n):
+                for e in range(s + 1, n + 1):
+                    seg = text[s:e]
+                    for new in (S(seg), F([[seg, under]]), F([[seg[:1], under], [seg[1:], fmtlib.PLAIN]])):
+                        yield {"op": "splice", "f": f, "new": new, "s": s, "e": e, "en": int(e == s + 1 and e % 2 == 0)}
 
     def execute(self, inp):
         return fmtlib.exec_op(inp)
@@ -71,6 +82,8 @@ class C09(PureCheck):
             bounds.add(c)
             c += len(t)
         bounds.add(c)
+        if newlen and [cp for t, _ in ev["new"]["v"] for cp in t] == [cp for t, _ in f for cp in t][s:e]:
+            return "splice:same-text-other-formatting"
         if newlen == 0:
             return "splice:empty-new:" + ("insert" if s == e else "delete")
         if s > n:
